@@ -172,6 +172,40 @@ int last_fd_created() { return S.nextfd - 1; }
 
 void run_block(long long b);
 
+// access to the container under a std::stack
+template<class St> typename St::container_type const &container_of(St const &st)
+{
+  struct H : St { static typename St::container_type const &get(St const &x) { return x.*(&H::c); } };
+  return H::get(st);
+}
+
+// buffer names are assigned by address: forget the addresses of a pool that is about to be destroyed
+void forget_pool_names(BufferPool *pool)
+{
+  if(!pool) return;
+  auto forget = [](void const *p) { for(auto &n : names) if(n == p) n = nullptr; };
+  for(auto const &b : pool->m_busy) forget(b.get());
+  for(auto const &b : container_of(pool->m_idle)) forget(b.get());
+}
+
+void destroy_objects(Sock &s)
+{
+  forget_pool_names(s.rxpool());
+  s.tcp.reset(); s.udp.reset(); s.acc.reset(); s.tcpb.reset(); s.udpb.reset();
+  s.tcpa.reset(); s.udpa.reset(); s.acca.reset();
+}
+
+// a scenario key is reused: the object it named before is destroyed first
+void fresh_key(long long k)
+{
+  auto it = socks.find(k);
+  if(it == socks.end()) return;
+  auto &s = it->second;
+  forget_pool_names(s.rxpool());
+  s.tcp.reset(); s.udp.reset(); s.acc.reset(); s.tcpb.reset(); s.udpb.reset();
+  s.tcpa.reset(); s.udpa.reset(); s.acca.reset();
+}
+
 void add_sock(long long k, Sock &&s)
 {
   if(!socks.count(k)) sock_order.push_back(k);
@@ -297,7 +331,11 @@ void run_simple_op(Op const &op)
       return {};
     });
     break;
+  case 14: // RELEASE_ALL
+    api(opc, [&]() -> V { for(auto &h : held) h.reset(); return {}; });
+    break;
   case 20: // TCP_NEW s
+    fresh_key(a0);
     api(opc, [&]() -> V {
       Sock s; s.kind = 1;
       s.tcp = std::make_unique<SocketTcp>(sym_addr(100 + a0));
@@ -307,6 +345,7 @@ void run_simple_op(Op const &op)
     });
     break;
   case 21: // UDP_NEW s
+    fresh_key(a0);
     api(opc, [&]() -> V {
       Sock s; s.kind = 2;
       s.udp = std::make_unique<SocketUdp>(sym_addr(200 + a0));
@@ -316,6 +355,7 @@ void run_simple_op(Op const &op)
     });
     break;
   case 22: // ACC_NEW s
+    fresh_key(a0);
     api(opc, [&]() -> V {
       Sock s; s.kind = 3;
       s.acc = std::make_unique<Acceptor>(sym_addr(300 + a0));
@@ -381,6 +421,7 @@ void run_simple_op(Op const &op)
   case 27: { // ACC_LISTEN s timeout news
     auto &s = need_sock(a0, 3);
     if(!s.acc) bad_case(103);
+    fresh_key(a2);
     api(opc, [&]() -> V {
       auto r = s.acc->Listen(Duration(a1));
       if(!r) return {0};
@@ -396,9 +437,7 @@ void run_simple_op(Op const &op)
     auto it = socks.find(a0);
     if(it == socks.end()) bad_case(102);
     api(opc, [&]() -> V {
-      auto &s = it->second;
-      s.tcp.reset(); s.udp.reset(); s.acc.reset(); s.tcpb.reset(); s.udpb.reset();
-      s.tcpa.reset(); s.udpa.reset(); s.acca.reset();
+      destroy_objects(it->second);
       return {};
     });
     break;
@@ -519,6 +558,7 @@ void run_simple_op(Op const &op)
     if(!cur_acc) { ret_ok(opc, {0}); break; }
     auto acc = *cur_acc;
     cur_acc.reset();
+    fresh_key(a0);
     Sock c; c.kind = 1;
     c.tcp = std::make_unique<SocketTcp>(std::move(*acc.sock));
     c.fd = c.tcp->impl->fd;
